@@ -19,8 +19,9 @@ import time
 import traceback
 
 ROOT = os.path.dirname(os.path.dirname(os.path.abspath(__file__)))
-EVIDENCE_DIR = os.path.join(ROOT, "evidence")
-REPLAY_DIR = os.path.join(ROOT, "replays")
+# (the two overrides are for runs against a scratch copy of the repository: tools/eval_seeded.py --scratch)
+EVIDENCE_DIR = os.environ.get("DLVERIF_EVIDENCE_DIR") or os.path.join(ROOT, "evidence")
+REPLAY_DIR = os.environ.get("DLVERIF_REPLAY_DIR") or os.path.join(ROOT, "replays")
 LOCK = os.path.join(ROOT, "obligations.lock.json")
 KNOWN = os.path.join(ROOT, "known_findings.json")
 
